@@ -236,6 +236,16 @@ def malformed_job(job):
                                           variables={'b': 'output(0.0)', 'a': 'input(0.0)'})
                     nt = NodeTemplate(name='nc', path=None, operators=[o1, o2])
                     CircuitTemplate('c', nodes={'n0': nt}).run(outputs={'o': 'n0/p/a'}, **run_kw)
+                elif kind == 'population_value':
+                    # a population parameter / a node value for a population that names no variable of its node template
+                    from pyrates.frontend.template.population import PopulationTemplate, Connectivity
+                    nt = NodeTemplate(name='nt', path=None, operators=[mk_op()])
+                    params = {job['path']: [1.5, 2.5, 3.5]} if job['route'] == 'params' else {}
+                    pop = PopulationTemplate(name='a', node=nt, n=3, params=params)
+                    c = CircuitTemplate('pm', populations={'a': pop},
+                                        connections=[Connectivity(source='a/li/x', target='a/li/u', weights=np.eye(3) * 0.5)])
+                    extra = {} if job['route'] == 'params' else dict(node_values={'a/' + job['path']: 3.0})
+                    c.run(outputs={'o': 'a/li/x'}, **run_kw, **extra)
                 elif kind == 'edge_op_values':
                     # node-level value for an operator that does not exist
                     nt = NodeTemplate(name='nt', path=None, operators={mk_op(): {}})
@@ -305,6 +315,11 @@ def malformed_jobs(tier):
                 if tier == 'thorough' or name in ('E', 'pi', 'source_idx', 'x_buffer', 'y'):
                     J.append(dict(kind='reserved', vectorize=vec, name=name, must='raise', route=route,
                                   key=f"reserved:{name}:value-from-{route}:vec={vec}"))
+        if vec:
+            for route in ('params', 'node_values'):
+                for bad in ('lix/tau', 'li/tauu'):
+                    J.append(dict(kind='population_value', vectorize=True, must='warn', route=route, path=bad,
+                                  key=f"population-value:{route}:{bad}"))
         J.append(dict(kind='two_outputs', vectorize=vec, must='raise', key=f"two-outputs:vec={vec}"))
         J.append(dict(kind='cycle', vectorize=vec, must='raise', key=f"cyclic-node:vec={vec}"))
         J.append(dict(kind='edge_op_values', vectorize=vec, must='raise', key=f"node-value-unknown-operator:vec={vec}"))
